@@ -64,7 +64,7 @@ ErrC == [cls |-> "closesent", id |-> 3]
 Frame(st, op, fin, r1, len, m, off, zm, zlen, key) ==
   [t |-> "F", c |-> 0, op |-> op, fin |-> fin, r1 |-> r1, r2 |-> FALSE, r3 |-> FALSE,
    mk |-> (st.role = "client"), len |-> len, lk |-> "n", min |-> TRUE,
-   key |-> IF st.role = "client" THEN key ELSE -1, m |-> m, off |-> off, zm |-> zm, zlen |-> zlen, code |-> -1]
+   key |-> IF st.role = "client" THEN key ELSE -1, m |-> m, off |-> off, zm |-> zm, zlen |-> zlen, code |-> -1, zlv |-> << >>]
 
 (* emit one frame of the current message through write(): SWD then Write *)
 (* g.v is a scratch view of [wrote, sent, started, nextkey, err]          *)
